@@ -207,7 +207,9 @@ pub fn run_schedule(kind: Kind, n: usize, acts: &[char], thread_rot: usize) -> O
 /// through the yield points of the real `TaskEmitter::emit` under a random schedule. Whatever the
 /// schedule, the stream's frames must be recorded, logged and replayed to a late subscriber as
 /// 0,1,2,… in order.
-fn two_emitter_case(rep: &mut Report, rng: &mut Rng) {
+/// two or three emitters on one task stream under a random controlled schedule: (seqs of the task
+/// stream in log file order, what a late subscriber receives, frames expected, the case)
+pub fn two_emitter_run(rng: &mut Rng) -> (Vec<u64>, Vec<u64>, u64, Value, String) {
     let scratch = Scratch::new("c06e");
     let data_dir = scratch.path().join("data");
     let ws = scratch.path().join("ws");
@@ -247,12 +249,17 @@ fn two_emitter_case(rep: &mut Report, rng: &mut Rng) {
     // (2) a late subscriber (replays the recorded frames)
     let uri = format!("/tasks/{task_id}/events");
     let late: Vec<u64> = setup_rt.block_on(async { crate::http::sse_collect(&app.router, &uri, 300, |_| false).await }).iter().filter_map(|v| v["seq"].as_u64()).collect();
+    let case = json!({"emitters": nworkers, "frames_each": per, "schedule": schedule});
+    (logged, late, total, case, format!("two-emitters|{nworkers}|{per}|{schedule:?}"))
+}
+
+fn two_emitter_case(rep: &mut Report, rng: &mut Rng) {
+    let (logged, late, total, case, key) = two_emitter_run(rng);
     let want: Vec<u64> = (0..total).collect();
     rep.evaluations += 1;
     rep.traces_validated += 1;
     rep.count("two_emitter_cases");
-    rep.nontrivial_case(&format!("two-emitters|{nworkers}|{per}|{schedule:?}"));
-    let case = json!({"emitters": nworkers, "frames_each": per, "schedule": schedule});
+    rep.nontrivial_case(&key);
     if logged != want {
         rep.oracle_failure("C06|two-emitters|log-order", &format!("two emitters on one task stream: the log holds seqs {logged:?}, expected {want:?}"), case.clone());
     }
